@@ -131,25 +131,25 @@ theorem extends_ok_xor_err_partial (fs : Ext.FS) (main : String) (svcs : Ext.Ser
 
 /-! ## include -/
 
-/-- `include_terminates_partial`: when every include entry names a single file (so every loaded path is
-subject to the cycle test), the include loop returns on every file system.  The unrestricted statement is
-false: `Neg.include_terminates_false`. -/
-theorem include_terminates_partial (fs : Inc.FS) (hs : Inc.SinglePath fs) (files : List String) (fuel : Nat)
+/-- `include_terminates` (full strength since the repair of `hang@include-override-position`: every path of an
+entry, not only the first, is tested against the files being loaded): the include loop returns on every file
+system, for any entries, any override paths -/
+theorem include_terminates (fs : Inc.FS) (files : List String) (fuel : Nat)
     (hf : (Inc.keys fs).length < fuel) : Inc.loadModel fs fuel files [] ≠ .outOfFuel :=
-  Inc.loadModel_ne_fuel fs hs fuel files [] List.nodup_nil (by intro x hx; cases hx) (by intro f _ hx; cases hx) (by simpa using hf)
+  Inc.loadModel_ne_fuel fs fuel files [] List.nodup_nil (by intro x hx; cases hx) (by intro f _ hx; cases hx) (by simpa using hf)
 
-/-- `include_cycle_not_ok` (full strength): a file from which an include cycle is reachable is never loaded
-successfully, whatever the fuel, the override paths, the other entries -/
+/-- `include_cycle_not_ok`: a file from which an include cycle is reachable is never loaded successfully,
+whatever the fuel, the override paths, the other entries -/
 theorem include_cycle_not_ok (fs : Inc.FS) (f : String) (rest : List String) (fuel : Nat) (h : Inc.CanLoop fs f) :
     Inc.loadModel fs fuel (f :: rest) [] ≠ .ok :=
   Inc.loadModel_ne_ok fs fuel f rest [] h
 
-/-- `include_cycle_err_partial`: … and under `SinglePath` it is reported as an error -/
-theorem include_cycle_err_partial (fs : Inc.FS) (hs : Inc.SinglePath fs) (f : String) (rest : List String) (fuel : Nat)
+/-- `include_cycle_err`: … it is reported as an error -/
+theorem include_cycle_err (fs : Inc.FS) (f : String) (rest : List String) (fuel : Nat)
     (h : Inc.CanLoop fs f) (hf : (Inc.keys fs).length < fuel) :
     ∃ c, Inc.loadModel fs fuel (f :: rest) [] = .err c := by
   have h1 := include_cycle_not_ok fs f rest fuel h
-  have h2 := include_terminates_partial fs hs (f :: rest) fuel hf
+  have h2 := include_terminates fs (f :: rest) fuel hf
   cases hr : Inc.loadModel fs fuel (f :: rest) [] with
   | ok => exact absurd hr h1
   | err c => exact ⟨c, rfl⟩
@@ -159,15 +159,9 @@ theorem include_cycle_err_partial (fs : Inc.FS) (hs : Inc.SinglePath fs) (f : St
     exfalso
     exact Inc.loadModel_ne_panic fs fuel (f :: rest) [] s hr
 
-example : Inc.SinglePath [("a.yml", [["b.yml"]]), ("b.yml", [["a.yml"]])] := by
-  intro f entries hl e he
-  simp only [Inc.lookup] at hl
-  split at hl
-  · cases hl; simp only [List.mem_singleton] at he; subst he; decide
-  · split at hl
-    · cases hl; simp only [List.mem_singleton] at he; subst he; decide
-    · cases hl
 example : Inc.loadModel [("a.yml", [["b.yml"]]), ("b.yml", [["a.yml"]])] 3 ["a.yml"] [] = .err "includeCycle" := by decide
+/-- the input of the repaired defect: a cycle that closes through an override position -/
+example : Inc.loadModel [("A", [["B", "A"]]), ("B", [])] 3 ["A"] [] = .err "includeCycle" := by decide
 
 /-! ## a referenced file that is missing is an error naming the reference, never skipped -/
 
@@ -267,11 +261,11 @@ theorem extends_fuel_independent (fs : Ext.FS) (main : String) (svcs : Ext.Servi
   rw [show (Ext.refUniverse fs main svcs).length + 1 + (f2 - ((Ext.refUniverse fs main svcs).length + 1)) = f2 by omega] at e2
   rw [e1, e2]
 
-/-- `include_fuel_independent_partial` -/
-theorem include_fuel_independent_partial (fs : Inc.FS) (hs : Inc.SinglePath fs) (files : List String) (f1 f2 : Nat)
+/-- `include_fuel_independent` -/
+theorem include_fuel_independent (fs : Inc.FS) (files : List String) (f1 f2 : Nat)
     (h1 : (Inc.keys fs).length < f1) (h2 : (Inc.keys fs).length < f2) :
     Inc.loadModel fs f1 files [] = Inc.loadModel fs f2 files [] := by
-  have hb := include_terminates_partial fs hs files ((Inc.keys fs).length + 1) (Nat.lt_succ_self _)
+  have hb := include_terminates fs files ((Inc.keys fs).length + 1) (Nat.lt_succ_self _)
   have e1 := Inc.loadModel_mono_le fs files [] _ hb (f1 - ((Inc.keys fs).length + 1))
   have e2 := Inc.loadModel_mono_le fs files [] _ hb (f2 - ((Inc.keys fs).length + 1))
   rw [show (Inc.keys fs).length + 1 + (f1 - ((Inc.keys fs).length + 1)) = f1 by omega] at e1
